@@ -328,6 +328,38 @@ def frame (s : Step) (d : Option Wl) (o : StepOut) : Bool :=
   | none, none => o.writes == 0
   | _, _ => false
 
+/-! ### no crash (attached to C07: a controller that crash-loops finishes no rollout) -/
+
+/-- object states an API server holds and plans the executor passes: `spec.replicas` is set (the API server defaults
+    it) and, unless the workload is empty, the current batch lies inside the plan -/
+def callInputOK (rel : Rel) (s : Step) (d : Option Wl) : Bool :=
+  match d with
+  | none => true
+  | some w =>
+    match replicasOf w with
+    | none => false
+    | some r => s.call != .upgradeBatch || r == 0 || (entryOf rel s.batch).isSome
+
+/-- **no crash, full strength**: no call panics on such inputs (`panicked`: the call did) -/
+def noCrashFull (rel : Rel) (s : Step) (d : Option Wl) (panicked : Bool) : Bool :=
+  if callInputOK rel s d then !panicked else true
+
+/-- known-finding guard `dsNoRollingUpdate`: `UpgradeBatch` of a non-empty Advanced DaemonSet that has no
+    `updateStrategy.rollingUpdate` block (type `OnDelete`, or the block removed by its user during the rollout) -/
+def guardDsNoRU (s : Step) (d : Option Wl) : Bool :=
+  s.call == .upgradeBatch &&
+  (match d with
+   | some w => dsNoRU w && replicasOf w != some 0
+   | none => false)
+
+/-- the part of `noCrashFull` that is a theorem of the unchanged code -/
+def noCrashPartial (rel : Rel) (s : Step) (d : Option Wl) (panicked : Bool) : Bool :=
+  guardDsNoRU s d || noCrashFull rel s d panicked
+
+def isPanic {α : Type} : Out α → Bool
+  | .panic => true
+  | .val _ => false
+
 /-- all per-step oracles -/
 def stepOracles (c : Cfg) (s : Step) (d : Option Wl) (o : StepOut) : List (String × Bool) :=
   [("C06.sts_fault_safe", faultSafe s d o),
